@@ -485,8 +485,41 @@ def build_session(cfg, dirpath, shared_source=None):
     return session, signals, universe
 
 
-def run_session(cfg, market, monitors=True, dirpath=None, shared_source=None, hooks=None):
+class _UuidSeam(object):
+    """`uuid` as seen by qstrader.execution.order: order ids drawn from a seeded PRNG.
+
+    The random order ids are a source of nondeterminism the simulator must own (C18 states that no
+    result may depend on them); every run gets its own id stream.
+    """
+
+    class _U(object):
+        def __init__(self, n):
+            self.hex = "%032x" % n
+
+    def __init__(self, real, seed):
+        import random
+        self._real = real
+        self._rng = random.Random(seed)
+
+    def uuid4(self):
+        return _UuidSeam._U(self._rng.getrandbits(128))
+
+    def __getattr__(self, name):
+        return getattr(self._real, name)
+
+
+def run_session(cfg, market, monitors=True, dirpath=None, shared_source=None, hooks=None, uuid_seed=0):
     """Run one real backtest.  Returns an Outcome with everything the oracles look at."""
+    from qstrader.execution import order as _order_mod
+    real_uuid = _order_mod.uuid
+    _order_mod.uuid = _UuidSeam(real_uuid, uuid_seed)
+    try:
+        return _run_session(cfg, market, monitors, dirpath, shared_source, hooks)
+    finally:
+        _order_mod.uuid = real_uuid
+
+
+def _run_session(cfg, market, monitors, dirpath, shared_source, hooks):
     own = dirpath is None and shared_source is None
     if own:
         dirpath = mk.scratch_dir()
